@@ -13,6 +13,8 @@ import ShVerif.Base.Hex
 import ShVerif.Base.RuneCodec
 namespace ShVerif.C23
 
+deriving instance DecidableEq for Except
+
 /-! ## Model of ReadFields -/
 
 /-- `type pos struct{ start, end int }` (`end` is -1 while the field is open). -/
@@ -46,26 +48,31 @@ deriving Repr, DecidableEq
 
 def St.init : St := ⟨[], [], false, false⟩
 
+/-- First half of the loop body: the `if infield { … } else { … }` statement. -/
+def toggle (ifs : List Char) (raw : Bool) (st : St) (r : Char) : Except String St :=
+  if st.infield then
+    if ifsRune ifs r && (raw || !st.esc) then
+      match setLastEnd st.fpos st.runes.length with
+      | .ok f => .ok { st with fpos := f, infield := false }
+      | .error m => .error m
+    else .ok st
+  else
+    if !ifsRune ifs r && (raw || !st.esc) then
+      .ok { st with fpos := st.fpos ++ [⟨st.runes.length, -1⟩], infield := true }
+    else .ok st
+
+/-- Second half: `if r == '\\' { if raw || esc { append }; esc = !esc; continue }; append; esc = false`. -/
+def push (raw : Bool) (st : St) (r : Char) : St :=
+  if r == '\\' then
+    { st with runes := if raw || st.esc then st.runes ++ [r] else st.runes, esc := !st.esc }
+  else
+    { st with runes := st.runes ++ [r], esc := false }
+
 /-- One iteration of `for _, r := range s`. -/
 def step (ifs : List Char) (raw : Bool) (st : St) (r : Char) : Except String St :=
-  let st1 : Except String St :=
-    if st.infield then
-      if ifsRune ifs r && (raw || !st.esc) then
-        match setLastEnd st.fpos st.runes.length with
-        | .ok f => .ok { st with fpos := f, infield := false }
-        | .error m => .error m
-      else .ok st
-    else
-      if !ifsRune ifs r && (raw || !st.esc) then
-        .ok { st with fpos := st.fpos ++ [⟨st.runes.length, -1⟩], infield := true }
-      else .ok st
-  match st1 with
+  match toggle ifs raw st r with
   | .error m => .error m
-  | .ok st1 =>
-    if r == '\\' then
-      .ok { st1 with runes := if raw || st1.esc then st1.runes ++ [r] else st1.runes, esc := !st1.esc }
-    else
-      .ok { st1 with runes := st1.runes ++ [r], esc := false }
+  | .ok st1 => .ok (push raw st1 r)
 
 def loop (ifs : List Char) (raw : Bool) : St → List Char → Except String St
   | st, [] => .ok st
@@ -272,6 +279,43 @@ def specRead (ifs : List Char) (line : List Char) (names : Option Nat) (raw : Bo
   match names with
   | some k => specVars ifs k s
   | none => specAll ifs (s.length + 1) s
+
+/-! ### The region in which the unchanged code is proved to meet the specification -/
+
+/-- The line ends in an unpaired backslash (only possible at end of input; unspecified by POSIX). -/
+def loneBackslash : List Char → Bool
+  | [] => false
+  | [c] => c == '\\'
+  | c :: d :: rest => if c == '\\' then loneBackslash rest else loneBackslash (d :: rest)
+
+inductive Scan
+  | start    -- nothing but IFS white space so far
+  | afterC   -- the last character that is not IFS white space was a field character
+  | afterD   -- … was a non-white-space IFS delimiter
+deriving Repr, DecidableEq
+
+/-- Every non-white-space IFS delimiter stands strictly between two field characters, modulo IFS
+    white space: no leading, trailing or adjacent non-white-space delimiters (the situations in
+    which POSIX field splitting produces an empty field or keeps a delimiter in the last value). -/
+def isolated (ifs : List Char) : Scan → List MC → Bool
+  | .afterD, [] => false
+  | _, [] => true
+  | st, m :: s =>
+    if isWs ifs m then isolated ifs st s
+    else if isDelim ifs m then
+      match st with
+      | .afterC => isolated ifs .afterD s
+      | _ => false
+    else isolated ifs .afterC s
+
+/-- Hypothesis of `readfields_spec_partial` (mirrored by `c23Excluded` in harness/c23.go). -/
+def Clean (ifs : List Char) (raw : Bool) (line : List Char) : Prop :=
+  (raw = true ∨ ifs.contains '\\' = false) ∧
+  (raw = true ∨ loneBackslash line = false) ∧
+  isolated ifs .start (unescape raw line) = true
+
+instance (ifs : List Char) (raw : Bool) (line : List Char) : Decidable (Clean ifs raw line) := by
+  unfold Clean; exact inferInstance
 
 /-- Spec of line reading: without `-r` a backslash-newline pair is removed and any other
     backslash pair is kept (both bytes) for the later processing; the line ends at the first
